@@ -109,7 +109,7 @@ def conc_items(props, tier, want=None):
 def items_for(prop, tier):
     p = prop
     if p == 'C01': return step_items(['C01'], tier) + wrap_items(['C01'], tier, second=(False, True))
-    if p == 'C03': return step_items(['C03'], tier, ops=('get', 'insert'), need=lambda fl, pol, op, L, T, M, fw: not L and not T and not M) + wrap_items(['C03'], tier, pred=lambda r: not r['intended']['cache_if'] and not r['intended']['invalidate_on'], second=(False, True))
+    if p == 'C03': return step_items(['C03'], tier, ops=('get', 'insert'), need=lambda fl, pol, op, L, T, M, fw: not L and not T and not M) + wrap_items(['C03'], tier, pred=lambda r: not r['intended']['cache_if'] and not r['intended']['invalidate_on'], second=(False, True)) + conc_items(['C03'], tier, want=lambda pn, it: pn in ('same|same', 'call|call'))
     if p == 'C04': return step_items(['C04'], tier, need=lambda fl, pol, op, L, T, M, fw: L or op == 'get')
     if p == 'C05': return step_items(['C05'], tier, ops=('insert_with_memory',))
     if p == 'C06': return step_items(['C06'], tier, ops=('get', 'insert'), need=lambda fl, pol, op, L, T, M, fw: T or op == 'insert')
@@ -119,7 +119,7 @@ def items_for(prop, tier):
         c = conc_items(['C15'], tier, want=lambda pn, it: pn in ('same|same', 'call|call'))
         for x in c: x['atomics'] = True
         return step_items(['C15'], tier, flavours=['G', 'A'], ops=('get',)) + c
-    if p == 'C16': return step_items(['C16'], tier)
+    if p == 'C16': return step_items(['C16'], tier) + wrap_items(['C16'], tier, pred=lambda r: r['group'] in ('cfg', 'mem', 'res', 'cif', 'inv', 'method', 'sig')) + [x for x in inv_items(['C16'], tier) if x['mode'] != 'group' or x['name'] in ('t1', 'custom_g')]
     if p == 'C09': return wrap_items(['C09'], tier, pred=lambda r: r['intended']['result'], second=(False, True))
     if p == 'C10': return wrap_items(['C10'], tier, pred=lambda r: r['intended']['cache_if'] or r['group'] in ('plain', 'res'), second=(False,))
     if p == 'C11': return wrap_items(['C11'], tier, pred=lambda r: r['intended']['invalidate_on'] or r['group'] in ('plain',), second=(False, True))
